@@ -396,8 +396,13 @@ func (e *env) buildAlphabet() {
 
 type kase struct {
 	N     int      `json:"n"`
-	Seq   []string `json:"seq"`
+	Seq   []string `json:"seq"` // messages delivered after round1 has started
 	Party bool     `json:"party"`
+	// phased histories: Parked are delivered through baseParty.Update while the party is still in
+	// round0 (they are parked in futureMessages), then the transition round0 -> round1
+	// (round1.Start replays them), then Seq
+	Phased bool     `json:"phased,omitempty"`
+	Parked []string `json:"parked,omitempty"`
 }
 
 type finding struct {
@@ -424,6 +429,34 @@ type instance struct {
 	// from the ones it was last run on in this instance
 	checkedOn  string
 	checkedErr error
+	// phased histories
+	delivered   []sym        // every message handed to this instance so far (to name the culprit of an admitted entry)
+	flexM       bool         // more than k valid shares were replayed in one batch (map order): any k of them may be held
+	flexPresent map[int]bool // the members whose block share is held, observed under flexM
+}
+
+// culprit names the class of the delivered message an inadmissible share-set entry came from.
+func (in *instance) culprit(sh logical.VerifRoundShare, which int, cur sym) string {
+	for _, d := range in.delivered {
+		b := d.dataSign
+		if which == 1 {
+			b = d.rnd
+		}
+		if bytes.Equal(b, sh.Sig) && groupsig.DeserializeID(d.signer).GetHexString() == sh.Id {
+			return d.Class
+		}
+	}
+	return cur.Class
+}
+
+func (e *env) freshRound0() *instance {
+	bh, pre := e.bh, e.pre
+	ch := &chainStub{}
+	v := logical.VerifRoundNewInRound0(belong, ch, netStub{}, e.ids[0], e.group, &bh, &pre)
+	if v == nil {
+		panic("harness: party could not be constructed")
+	}
+	return &instance{e: e, v: v, chain: ch}
 }
 
 func (e *env) fresh() *instance {
@@ -509,9 +542,20 @@ func (in *instance) compare(part string, step int, s sym, M, A map[int]bool) *fi
 			} else if !A[idx] {
 				why = fmt.Sprintf("belongs to member %d who has not sent a valid message", idx)
 			}
-			return &finding{Sig: admitSig(s.Class), Part: part, Step: step, Admits: true,
+			return &finding{Sig: admitSig(in.culprit(sh, w, s)), Part: part, Step: step, Admits: true,
 				Msg: fmt.Sprintf("after message %d (%s) the %s share set holds an entry %s=%x… that %s; model set = members %v",
 					step+1, s.Name, names[w], sh.Id, sh.Sig[:min(8, len(sh.Sig))], why, setNames(M))}
+		}
+		if in.flexM {
+			if len(present) < e.k {
+				return &finding{Sig: "C15:drops-valid-share", Part: part, Step: step,
+					Msg: fmt.Sprintf("after %s the %s share set holds %d valid shares although more than k=%d valid shares were replayed; implementation set = [%s]",
+						s.Name, names[w], len(present), e.k, sharesStr(sets[w]))}
+			}
+			if w == 0 {
+				in.flexPresent = present
+			}
+			continue
 		}
 		for idx := range M {
 			if !present[idx] {
@@ -856,19 +900,23 @@ type plan struct {
 	n                int
 	bfsByz, bfsDepth int // BFS: one task per set of bfsByz possibly-Byzantine members (covers fewer), depth n+2
 	lit              []litPass
+	// phased histories (parked in round0 / transition / live): one Byzantine member at a time,
+	// live BFS depth phLive (-1: no phased pass), phParty: party-level instance in lock-step
+	phLive  int
+	phParty bool
 }
 
 func plans(thorough bool) []plan {
 	if !thorough {
 		return []plan{
-			{n: 3, bfsByz: 1, bfsDepth: 5, lit: []litPass{{false, 3, -1, 1}}},
-			{n: 4, bfsByz: 1, bfsDepth: 6},
+			{n: 3, bfsByz: 1, bfsDepth: 5, lit: []litPass{{false, 3, -1, 1}}, phLive: 1},
+			{n: 4, bfsByz: 1, bfsDepth: 6, phLive: -1},
 		}
 	}
 	return []plan{
-		{n: 3, bfsByz: 2, bfsDepth: 5, lit: []litPass{{false, 4, -1, 1}, {false, 3, 1, 2}, {true, 5, -1, 1}}},
-		{n: 4, bfsByz: 2, bfsDepth: 6},
-		{n: 5, bfsByz: 2, bfsDepth: 7, lit: []litPass{{false, 3, -1, 1}, {true, 4, -1, 1}}},
+		{n: 3, bfsByz: 2, bfsDepth: 5, lit: []litPass{{false, 4, -1, 1}, {false, 3, 1, 2}, {true, 5, -1, 1}}, phLive: 2, phParty: true},
+		{n: 4, bfsByz: 2, bfsDepth: 6, phLive: 1},
+		{n: 5, bfsByz: 2, bfsDepth: 7, lit: []litPass{{false, 3, -1, 1}, {true, 4, -1, 1}}, phLive: 0},
 	}
 }
 
@@ -901,6 +949,16 @@ func run(c *fw.Ctx) {
 			}
 		}
 	}
+	// phase 1b: delivery phase as a dimension (parked in round0 / transition / live)
+	for _, p := range ps {
+		if p.phLive < 0 {
+			continue
+		}
+		e := getEnv(p.n)
+		for _, b := range subsets(p.n, 1) {
+			e.phased(c, &idx, b, p.phLive, p.phParty)
+		}
+	}
 	// phase 2: literal enumeration
 	for _, p := range ps {
 		e := getEnv(p.n)
@@ -927,6 +985,26 @@ func replay(c *fw.Ctx, raw json.RawMessage) {
 		}
 		seq = append(seq, i)
 	}
+	if k.Phased {
+		var parked []int
+		for _, nm := range k.Parked {
+			i, ok := e.byName[nm]
+			if !ok {
+				panic("replay: unknown message " + nm)
+			}
+			parked = append(parked, i)
+		}
+		res := e.execPhased(parked, seq, k.Party)
+		fmt.Printf("  parked %v, transition, live %v; model: %v\n", k.Parked, k.Seq, res.outcomes)
+		if res.f != nil {
+			msg := res.f.Msg
+			if res.f.Admits {
+				msg += "; consequence when every member's honest message follows: " + e.consequencePhased(parked, seq)
+			}
+			c.Violation(res.f.Sig, res.f.Part, msg, k)
+		}
+		return
+	}
 	res := e.exec(seq, k.Party)
 	for i, o := range res.outcomes {
 		fmt.Printf("  message %d %-28s model: %s\n", i+1, k.Seq[i], o)
@@ -943,7 +1021,7 @@ func replay(c *fw.Ctx, raw json.RawMessage) {
 func main() {
 	fw.Main(fw.Check{
 		ID: "C15", Level: "model_checking",
-		Rule: "a case is one verify-message history executed on a fresh real round1 (fresh SignParty, share generators, header); " +
+		Rule: "a case is one verify-message history executed on a fresh real SignParty (fresh rounds, share generators, header): live-only histories, and phased histories = messages parked while the party is in round0, the transition round0->round1 (round1.Start replays them), live messages; " +
 			"histories are distinct as symbol sequences (BFS histories are counted only outside the literally enumerated space); " +
 			"non-trivial = the reference model admits at least one share and refuses (invalid / duplicate / after recovery) at least one message of the history",
 		Assumptions: []string{
